@@ -8,7 +8,7 @@ pid, i, tests = sys.argv[1], sys.argv[2], sys.argv[3]
 checks = sys.argv[4:] or [pid]
 tier = os.environ.get("SEED_TIER", "quick")
 rnd = os.environ.get("SEED_ROUND", "")
-src = f"/tmp/seed{rnd}_{pid}/_seed"
+src = f"/tmp/seed{rnd}_{pid}/_seed"  # round 1: /tmp/seed_Cxx, round k: /tmp/seed<k>_Cxx
 root = os.path.dirname(os.path.dirname(os.path.abspath(__file__)))
 dst = os.path.join(root, "seeded", f"{pid}-{'r' + rnd + '-' if rnd else ''}{i}")
 wt = tempfile.mkdtemp(prefix="molgri_seedchk_")
